@@ -449,3 +449,66 @@ Lemma take_in_group_is_row_number by_ keys n l :
   flat_map (fun g => map (by_first by_) (take_by_row_number n (match keys with [] => snd g | _ => isort (keys_le keys) (snd g) end)))
            (groups (S (length l)) by_ l).
 Proof. cbn [apply]. apply flat_map_ext. intro g. rewrite take_is_row_number_filter. reflexivity. Qed.
+
+(* ---------------------------------------------------------------- range frames read the generalised way (XWinR / XGroupWinR) *)
+Lemma win_colsr_length a b keys cols p : length (win_colsr a b keys cols p) = length p.
+Proof.
+  unfold win_colsr. rewrite map_length, combine_length, seq_length.
+  destruct keys; [apply Nat.min_id | rewrite isort_length; apply Nat.min_id].
+Qed.
+
+Lemma win_colsr_strip a b keys cols p :
+  map (fun r => vals (strip (length cols) r)) (win_colsr a b keys cols p) =
+  map vals (match keys with [] => p | _ => isort (keys_le keys) p end).
+Proof.
+  unfold win_colsr. set (ps := match keys with [] => p | _ => isort (keys_le keys) p end).
+  rewrite map_map.
+  assert (G : forall k, map (fun ir : nat * row => vals (strip (length cols)
+                 (fold_left (fun acc c => match c with (nm, w, e) => shadow acc (None, nm, win_applyxr a b w keys e ps (fst ir)) end) cols (snd ir))))
+               (combine (seq k (length ps)) ps) = map vals ps).
+  { generalize ps at 2 3 4 as l. intro l. induction l as [|x t IH]; intro k; [reflexivity|].
+    cbn [length seq combine map fst snd]. rewrite IH. f_equal.
+    apply (strip_fold_step (fun w e => win_applyxr a b w keys e ps k)). }
+  apply G.
+Qed.
+
+Lemma xwinr_preserves_rows a b keys cols l :
+  length (applyx (XWinR a b keys cols) l) = length l /\
+  Permutation (map (fun r => vals (strip (length cols) r)) (applyx (XWinR a b keys cols) l)) (map vals l).
+Proof.
+  cbn [applyx]. split; [apply win_colsr_length|].
+  rewrite win_colsr_strip. apply Permutation_map. destruct keys; [apply Permutation_refl | apply isort_perm].
+Qed.
+
+Lemma xgroupwinr_length by_ a b keys cols l : length (applyx (XGroupWinR by_ a b keys cols) l) = length l.
+Proof.
+  cbn [applyx].
+  rewrite (flat_map_length_sum _ (fun g : list val * rel => snd g)).
+  - apply Permutation_length. apply groups_perm. lia.
+  - intros g _. rewrite map_length. apply win_colsr_length.
+Qed.
+
+Lemma xgroupwinr_perm by_ a b keys cols l :
+  cols_not_keys by_ cols ->
+  Permutation (map (fun r => vals (strip (length cols) r)) (applyx (XGroupWinR by_ a b keys cols) l))
+              (map (fun r => vals (by_first by_ r)) l).
+Proof.
+  intro H. cbn [applyx]. rewrite map_flat_map.
+  eapply Permutation_trans.
+  - apply (flat_map_perm _ (fun g : list val * rel => map (fun r => vals (by_first by_ r)) (snd g))).
+    intros g _. rewrite map_map. unfold win_colsr.
+    set (ps := match keys with [] => snd g | _ => isort (keys_le keys) (snd g) end).
+    rewrite map_map.
+    assert (G : forall k l0, map (fun ir : nat * row => vals (strip (length cols) (by_first by_
+                   (fold_left (fun acc c => match c with (nm, w, e) => shadow acc (None, nm, win_applyxr a b w keys e ps (fst ir)) end) cols (snd ir)))))
+                 (combine (seq k (length l0)) l0) = map (fun r => vals (by_first by_ r)) l0).
+    { intros k l0. revert k. induction l0 as [|x t IH]; intro k; [reflexivity|].
+      cbn [length seq combine map fst snd]. rewrite IH. f_equal.
+      apply (strip_by_first_fold (fun w e => win_applyxr a b w keys e ps k) by_ cols x H). }
+    rewrite G. apply Permutation_map. subst ps. destruct keys; [apply Permutation_refl | apply isort_perm].
+  - rewrite <- map_flat_map. apply Permutation_map. apply groups_perm. lia.
+Qed.
+
+(* where the segments agree, so do the values: on Rel.v's domain XWinR is XWinF (FRange ..) *)
+Lemma win_applyfx_agrees fr w keys e p i : segx fr keys p i = seg fr keys p i -> win_applyfx fr w keys e p i = win_applyf fr w keys e p i.
+Proof. intro H. unfold win_applyfx, win_applyf. rewrite H. destruct w as [| |k|k| | |[]]; reflexivity. Qed.
